@@ -139,6 +139,18 @@ def spec_env():
                     out.append({a: list(b) for a, b in m.items() if a != ks[-1]})
         return out
     env["small_latter_maps"] = small_latter_maps
+    def scrambled_latter_maps(k_):
+        """latter maps of small accessors with keys and lists reversed / rotated (a caller-built map)"""
+        out = []
+        for a_ in small_accessors(k_):
+            m = {int(a): [int(x) for x in b] for a, b in S.latter_map_spec(a_).items()}
+            out.append({a: list(reversed(b)) for a, b in reversed(list(m.items()))})
+            out.append({a: b[1:] + b[:1] for a, b in m.items()})
+        return out
+    env["scrambled_latter_maps"] = scrambled_latter_maps
+    env["lm_shift"] = lambda d, k: all(0 <= a < 4 ** k and len(b) <= 4 and all(x == (a % 4 ** (k - 1)) * 4 + x % 4 and x >= 0 for x in b) for a, b in d.items())
+    env["lm_written"] = lambda acc, d, k: all(int(acc[v][j]) == ((v % 4 ** (k - 1)) * 4 + j if v in d and (v % 4 ** (k - 1)) * 4 + j in d[v] else -1)
+                                              for v in range(4 ** k) for j in range(4))
     def closed_sets(m, t):
         """the greatest closed vertex set of the map (entries counted by list position) and, when it differs, the empty one"""
         cur = set(m)
